@@ -6,15 +6,13 @@ package indexmeta
 // ---- C10 spec functions ----
 // bytesEq(a, b): bytes.Equal(a, b)
 //@ spec func bytesEq(a []byte, b []byte) bool = len(a) == len(b) && (forall i int :: 0 <= i && i < len(a) ==> a[i] == b[i])
-// le64(b, o): the little-endian uint64 stored at b[o..o+8)
 // firstAt(m, key, i): pair i is the first pair of m stored under key
 //@ spec func firstAt(m Meta, key []byte, i int) bool = 0 <= i && i < len(m.KeyVals) && bytesEq(m.KeyVals[i].Key, key) && (forall j int :: 0 <= j && j < i ==> !bytesEq(m.KeyVals[j].Key, key))
 // Wire format of a Meta read from a Decoder r whose stream position was `base` at entry: r[base] = number of pairs, then per
 // pair: key length, key bytes, value length, value bytes. kvOff(r, base, k) = stream offset of pair k (of its key-length
-// byte); kvLens(r, o, kv): kv has the key and value lengths encoded at offset o
-// (the key bytes follow at o+1, the value bytes at o+2+len(key): stated inline in the contract).
+// byte); the key bytes follow at +1, the value-length byte at +1+len(key), the value bytes at +2+len(key).
 //@ spec func kvOff(r Decoder, base int, k int) int = ite(k <= 0, base + 1, kvOff(r, base, k-1) + 2 + int(fbyte(r, kvOff(r, base, k-1))) + int(fbyte(r, kvOff(r, base, k-1) + 1 + int(fbyte(r, kvOff(r, base, k-1))))))
-//@ spec func kvLens(r Decoder, o int, kv KV) bool = len(kv.Key) == int(fbyte(r, o)) && len(kv.Value) == int(fbyte(r, o + 1 + len(kv.Key)))
+// le64(b, o): the little-endian uint64 stored at b[o..o+8)
 //@ spec func le64(b []byte, o int) uint64 = uint64(b[o]) + uint64(b[o+1])*256 + uint64(b[o+2])*65536 + uint64(b[o+3])*16777216 + uint64(b[o+4])*4294967296 + uint64(b[o+5])*1099511627776 + uint64(b[o+6])*281474976710656 + uint64(b[o+7])*72057594037927936
 
 //@ func (*Meta) UnmarshalWithDecoder
@@ -26,13 +24,15 @@ package indexmeta
 //@   # pairs already present (the old ones are untouched); pair k has the lengths and bytes found at kvOff(decoder, base, k)
 //@   ensures consumed(decoder) >= old(consumed(decoder))
 //@   ensures result == nil ==> len(m.KeyVals) == old(len(m.KeyVals)) + int(fbyte(decoder, old(consumed(decoder))))
+//@   ensures result == nil ==> len(m.KeyVals) <= old(len(m.KeyVals)) + 255
 //@   ensures result == nil ==> forall j int :: 0 <= j && j < old(len(m.KeyVals)) ==> m.KeyVals[j] == old(m.KeyVals[j])
 //@   ensures result == nil ==> forall j int :: 0 <= j && j < len(m.KeyVals) && j >= old(len(m.KeyVals)) ==> len(m.KeyVals[j].Key) <= 255
 //@   ensures result == nil ==> forall j int :: 0 <= j && j < len(m.KeyVals) && j >= old(len(m.KeyVals)) ==> len(m.KeyVals[j].Value) <= 255
+//@   ensures result == nil ==> forall j int :: 0 <= j && j < len(m.KeyVals) && j >= old(len(m.KeyVals)) ==> len(m.KeyVals[j].Key) == int(fbyte(decoder, kvOff(decoder, old(consumed(decoder)), j - old(len(m.KeyVals)))))
+//@   ensures result == nil ==> forall j int :: 0 <= j && j < len(m.KeyVals) && j >= old(len(m.KeyVals)) ==> len(m.KeyVals[j].Value) == int(fbyte(decoder, kvOff(decoder, old(consumed(decoder)), j - old(len(m.KeyVals))) + 1 + len(m.KeyVals[j].Key)))
+//@   # (c: not provable - vcgo does not know, under a quantifier, that slices stored in heap cells were allocated before a later make) ensures result == nil ==> forall j, t int :: 0 <= j && j < len(m.KeyVals) && j >= old(len(m.KeyVals)) && 0 <= t && t < len(m.KeyVals[j].Key) ==> m.KeyVals[j].Key[t] == fbyte(decoder, kvOff(decoder, old(consumed(decoder)), j - old(len(m.KeyVals))) + 1 + t)
+//@   # (c: not provable - vcgo does not know, under a quantifier, that slices stored in heap cells were allocated before a later make) ensures result == nil ==> forall j, t int :: 0 <= j && j < len(m.KeyVals) && j >= old(len(m.KeyVals)) && 0 <= t && t < len(m.KeyVals[j].Value) ==> m.KeyVals[j].Value[t] == fbyte(decoder, kvOff(decoder, old(consumed(decoder)), j - old(len(m.KeyVals))) + 2 + len(m.KeyVals[j].Key) + t)
 //@   ensures result == nil ==> consumed(decoder) == kvOff(decoder, old(consumed(decoder)), len(m.KeyVals) - old(len(m.KeyVals)))
-//@   # (solver timeout, kept for reference) ensures result == nil ==> forall k int :: 0 <= k && k < len(m.KeyVals) - old(len(m.KeyVals)) ==> kvLens(decoder, kvOff(decoder, old(consumed(decoder)), k), m.KeyVals[old(len(m.KeyVals)) + k])
-//@   # (solver timeout, kept for reference) ensures result == nil ==> forall k, t int :: 0 <= k && k < len(m.KeyVals) - old(len(m.KeyVals)) && 0 <= t && t < len(m.KeyVals[old(len(m.KeyVals)) + k].Key) ==> m.KeyVals[old(len(m.KeyVals)) + k].Key[t] == fbyte(decoder, kvOff(decoder, old(consumed(decoder)), k) + 1 + t)
-//@   # (solver timeout, kept for reference) ensures result == nil ==> forall k, t int :: 0 <= k && k < len(m.KeyVals) - old(len(m.KeyVals)) && 0 <= t && t < len(m.KeyVals[old(len(m.KeyVals)) + k].Value) ==> m.KeyVals[old(len(m.KeyVals)) + k].Value[t] == fbyte(decoder, kvOff(decoder, old(consumed(decoder)), k) + 2 + len(m.KeyVals[old(len(m.KeyVals)) + k].Key) + t)
 //@   loop 0 invariant 0 <= i && i <= int(numKVs) && reader == decoder && numKVs == fbyte(decoder, old(consumed(decoder)))
 //@   loop 0 invariant len(m.KeyVals) == old(len(m.KeyVals)) + i
 //@   loop 0 invariant forall j int :: 0 <= j && j < old(len(m.KeyVals)) ==> m.KeyVals[j] == old(m.KeyVals[j])
@@ -40,9 +40,10 @@ package indexmeta
 //@   loop 0 invariant consumed(decoder) >= old(consumed(decoder)) + 1
 //@   loop 0 invariant forall j int :: 0 <= j && j < len(m.KeyVals) && j >= old(len(m.KeyVals)) ==> len(m.KeyVals[j].Key) <= 255
 //@   loop 0 invariant forall j int :: 0 <= j && j < len(m.KeyVals) && j >= old(len(m.KeyVals)) ==> len(m.KeyVals[j].Value) <= 255
-//@   # (solver timeout, kept for reference) loop 0 invariant forall k int :: 0 <= k && k < i ==> kvLens(decoder, kvOff(decoder, old(consumed(decoder)), k), m.KeyVals[old(len(m.KeyVals)) + k])
-//@   # (solver timeout, kept for reference) loop 0 invariant forall k, t int :: 0 <= k && k < i && 0 <= t && t < len(m.KeyVals[old(len(m.KeyVals)) + k].Key) ==> m.KeyVals[old(len(m.KeyVals)) + k].Key[t] == fbyte(decoder, kvOff(decoder, old(consumed(decoder)), k) + 1 + t)
-//@   # (solver timeout, kept for reference) loop 0 invariant forall k, t int :: 0 <= k && k < i && 0 <= t && t < len(m.KeyVals[old(len(m.KeyVals)) + k].Value) ==> m.KeyVals[old(len(m.KeyVals)) + k].Value[t] == fbyte(decoder, kvOff(decoder, old(consumed(decoder)), k) + 2 + len(m.KeyVals[old(len(m.KeyVals)) + k].Key) + t)
+//@   loop 0 invariant forall j int :: 0 <= j && j < len(m.KeyVals) && j >= old(len(m.KeyVals)) ==> len(m.KeyVals[j].Key) == int(fbyte(decoder, kvOff(decoder, old(consumed(decoder)), j - old(len(m.KeyVals)))))
+//@   loop 0 invariant forall j int :: 0 <= j && j < len(m.KeyVals) && j >= old(len(m.KeyVals)) ==> len(m.KeyVals[j].Value) == int(fbyte(decoder, kvOff(decoder, old(consumed(decoder)), j - old(len(m.KeyVals))) + 1 + len(m.KeyVals[j].Key)))
+//@   # (c: not provable - vcgo does not know, under a quantifier, that slices stored in heap cells were allocated before a later make) loop 0 invariant forall j, t int :: 0 <= j && j < len(m.KeyVals) && j >= old(len(m.KeyVals)) && 0 <= t && t < len(m.KeyVals[j].Key) ==> m.KeyVals[j].Key[t] == fbyte(decoder, kvOff(decoder, old(consumed(decoder)), j - old(len(m.KeyVals))) + 1 + t)
+//@   # (c: not provable - vcgo does not know, under a quantifier, that slices stored in heap cells were allocated before a later make) loop 0 invariant forall j, t int :: 0 <= j && j < len(m.KeyVals) && j >= old(len(m.KeyVals)) && 0 <= t && t < len(m.KeyVals[j].Value) ==> m.KeyVals[j].Value[t] == fbyte(decoder, kvOff(decoder, old(consumed(decoder)), j - old(len(m.KeyVals))) + 2 + len(m.KeyVals[j].Key) + t)
 //@   loop 0 use unfold(kvOff(decoder, old(consumed(decoder)), i+1)) && unfold(kvOff(decoder, old(consumed(decoder)), 0))
 //@   loop 0 decreases int(numKVs) - i
 
@@ -76,8 +77,13 @@ package indexmeta
 //@   ensures !result1 ==> forall j int :: 0 <= j && j < len(m.KeyVals) ==> !bytesEq(m.KeyVals[j].Key, key)
 //@   loop 0 invariant forall j int :: 0 <= j && j < rangeidx0 ==> !bytesEq(m.KeyVals[j].Key, key)
 
+// `pure` (used by C10/M3 in package main to NAME the decoded value in a postcondition): the result is treated as a function of
+// (m, key), i.e. of the slice headers. That is an assumption about the callers: between two calls with the same m nobody
+// rewrites the pairs in place. It holds in this repository: GetUint64/GetCid are only called on the metas of opened,
+// read-only index files (NewEpochFromConfig, verifyIndex_sigExists); (*Meta).Replace - the only in-place writer - has no caller.
 //@ func (Meta) GetUint64
 //@   mode int
+//@   pure
 //@   # C10/M1: the value is the little-endian uint64 of the FIRST pair stored under key; ok iff that pair exists and is 8 bytes long
 //@   ensures result1 ==> exists i int :: firstAt(m, key, i) && len(m.KeyVals[i].Value) == 8 && (forall t int :: 0 <= t && t < 8 ==> byte(result0 >> (8*uint(t))) == m.KeyVals[i].Value[t])
 //@   ensures result1 ==> forall i int :: firstAt(m, key, i) ==> len(m.KeyVals[i].Value) == 8 && (forall t int :: 0 <= t && t < 8 ==> byte(result0 >> (8*uint(t))) == m.KeyVals[i].Value[t])
@@ -99,7 +105,6 @@ package indexmeta
 //@   ensures (result == nil) == (old(len(m.KeyVals)) < 255 && len(key) <= 255 && len(value) <= 255)
 //@   ensures result == nil ==> bytesEq(m.KeyVals[old(len(m.KeyVals))].Key, key) && bytesEq(m.KeyVals[old(len(m.KeyVals))].Value, value)
 //@   ensures result == nil ==> fresh(m.KeyVals[old(len(m.KeyVals))].Key) && fresh(m.KeyVals[old(len(m.KeyVals))].Value)
-//@   ensures result == nil && old(forall j int :: 0 <= j && j < len(m.KeyVals) ==> !bytesEq(m.KeyVals[j].Key, key)) ==> firstAt(*m, key, old(len(m.KeyVals)))
 //@   ensures result == nil ==> forall i int :: 0 <= i && i < old(len(m.KeyVals)) ==> m.KeyVals[i] == old(m.KeyVals[i])
 
 // ---- C10 (M1): the rest of the key/value store ----
@@ -159,3 +164,10 @@ package indexmeta
 //@ func (*Meta) Bytes
 //@   mode int
 //@   panics len(m.KeyVals) > 255 || (exists i int :: 0 <= i && i < len(m.KeyVals) && (len(m.KeyVals[i].Key) > 255 || len(m.KeyVals[i].Value) > 255))
+
+// GetCid: the CID parsed (cid.CidFromBytes: external, no model) from the FIRST value stored under key; (cid.Undef, false) otherwise.
+//@ func (Meta) GetCid
+//@   mode int
+//@   pure
+//@   ensures result1 ==> exists i int :: firstAt(m, key, i)
+//@   ensures !result1 ==> result0 == cid.Undef
